@@ -15,7 +15,7 @@ R-CFBFLOW  mini-stream cutoff and chain truncation
 R-TBL      table header/totals adjustments use their own field
 R-RANGEPRE Range::range is only called with start <= end established
 """
-from .kit import (walk, walk_anc, walk_k, unwrap, peel, loc, callee, callee_decl, path_local, path_def, lit_value, pat_bindings,
+from .kit import (flat_stmts, body_stmts, cond_exprs, walk, walk_anc, walk_k, unwrap, peel, loc, callee, callee_decl, path_local, path_def, lit_value, pat_bindings,
                   pat_is_catchall, pat_variant, pat_covers, norm, norm_ty, field_chain, shape, always_leaves, in_macro)
 from .r_tables import pat_keys, variants_built, key_matches
 from .r_xml import event_matches, guard_literals, _arm_event_variant
@@ -192,7 +192,7 @@ def r_frame(ctx, rep):
                     plids = {lid for p in fn.params for nm, lid in pat_bindings(p) if nm != "self"}
                     ok = False
                     body = unwrap(fn.body)
-                    stmts = body["block"]["stmts"] if body.get("k") == "BlockExpr" else []
+                    stmts = body_stmts(body)
                     for s in stmts:
                         e = s.get("e")
                         if e and unwrap(e).get("k") == "Assign":
@@ -361,6 +361,28 @@ def r_mapkey(ctx, rep):
                             ok = True
                         else:
                             wrong = (loc(m), c)
+    if not ok:
+        # iterator form: `self.iter.by_ref().find(|i| !cells[i].is_empty())` / `.filter(..)`
+        cells_locals = {lid for l in walk_k(fn.body, "Let") if l.get("init") is not None and field_chain(l["init"]) == ("self", ["cells"]) for _, lid in pat_bindings(l["pat"])}
+        for c in walk_k(fn.body, "MethodCall"):
+            if c["name"] not in ("find", "filter", "find_map", "filter_map") or not c.get("args"):
+                continue
+            clo = unwrap(c["args"][0])
+            if clo.get("k") != "Closure":
+                continue
+            for u in walk_k(clo, "Unary"):
+                if u["op"] != "!":
+                    continue
+                for m in walk_k(u, "MethodCall"):
+                    if m["name"] != "is_empty":
+                        continue
+                    on_cells = any(x.get("k") == "Field" and x.get("name") == "cells" for x in walk(m["recv"])) or \
+                        any(path_local(x) and path_local(x)[1] in cells_locals for x in walk_k(m["recv"], "Path"))
+                    cal = callee(m) or ""
+                    if on_cells and "String" not in cal and "::str::" not in cal:
+                        ok = True
+                    else:
+                        wrong = (loc(m), cal)
     if ok:
         rep.holds("R-MAPKEY", key, loc(fn.raw), "keys are produced inside a loop that skips cells for which is_empty() holds")
     else:
@@ -394,7 +416,11 @@ def r_hdr(ctx, rep):
             good = True
         pl = path_local(other)
         if pl:
-            # the other side is a closure parameter produced by a `.map(|h| h...trim())` stage
+            # the other side is a local bound to a trimmed value (`let wanted = wanted.as_ref().trim();`)
+            for l in walk_k(fn.body, "Let"):
+                if l.get("init") is not None and any(lid == pl[1] for _, lid in pat_bindings(l["pat"])) and any(_is_trim(callee(m)) for m in walk_k(l["init"], "MethodCall")):
+                    good = True
+            # ... or a closure parameter produced by a `.map(|h| h...trim())` stage
             for c in walk_k(fn.body, "MethodCall"):
                 if c["name"] == "map" and c["args"]:
                     cl = unwrap(c["args"][0])
@@ -987,6 +1013,10 @@ def r_pwd(ctx, rep):
                 conds.append(a["cond"])
             if a.get("k") == "Match" and a.get("src") not in ("TryDesugar",):
                 conds.append(a["scrut"])
+                # `match Cfb::new(..) { Ok(cfb) if cfb.has_directory(..) => Err(Password), _ => Ok(()) }`
+                for arm in a["arms"]:
+                    if arm.get("guard") is not None and any(x is n for x in walk(arm["body"])):
+                        conds.append(arm["guard"])
         ok_dir = any(any(m["name"] == "has_directory" and m["args"] and lit_value(m["args"][0]) == "EncryptedPackage" for m in walk_k(c, "MethodCall")) for c in conds)
         other = [c for c in conds if not any(m["name"] == "has_directory" for m in walk_k(c, "MethodCall")) and not any((callee(x) or "").endswith("Cfb::new") for x in walk_k(c, "Call"))]
         negated = any(u["op"] == "!" and any(m["name"] == "has_directory" for m in walk_k(u, "MethodCall")) for c in conds for u in walk_k(c, "Unary"))
@@ -1215,7 +1245,7 @@ def r_cont(ctx, rep):
         body = unwrap(fn.body)
         seq = []
         inits = {}
-        for s in body["block"]["stmts"] + ([{"k": "Expr", "e": body["block"]["expr"]}] if body["block"].get("expr") else []):
+        for s in body_stmts(fn.body):
             e = s.get("init") if s.get("k") == "Let" else s.get("e")
             if e is None:
                 continue
@@ -1314,7 +1344,7 @@ def r_cfbflow(ctx, rep):
                 if norm_ty(p.get("ty", "")) == "usize":
                     plid = lid
         body = unwrap(fn.body)
-        for s in body["block"]["stmts"]:
+        for s in body_stmts(fn.body):
             e = unwrap(s.get("e") or {})
             if e.get("k") == "If":
                 c = unwrap(e["cond"])
@@ -1423,6 +1453,9 @@ def r_rangepre(ctx, rep, only=None):
                         if e.get("k") == "If" and always_leaves(e["then"], set()):
                             cands.append(e["cond"])
             entering = [a["cond"] for a in anc if a.get("k") == "If" and any(x is c for x in walk(a["then"]))]
+            # the call may also sit in the else branch of `if start > end { empty } else { range(..) }`
+            in_else = [a["cond"] for a in anc if a.get("k") == "If" and a.get("els") is not None and any(x is c for x in walk(a["els"]))]
+            cands += in_else
             for cond in cands:
                 for b in walk_k(cond, "Binary"):
                     if b["op"] in ("<", "<=", ">", ">="):
@@ -1431,7 +1464,7 @@ def r_rangepre(ctx, rep, only=None):
                         if (ls & s_l and rs & e_l) or (ls & e_l and rs & s_l):
                             guard = b
                             start_left = bool(ls & s_l)
-                            is_enter = any(cond is e for e in entering)
+                            is_enter = any(cond is e for e in entering)   # (an else branch is entered when the test fails, like the code after an early return)
                             # exact guard: enter iff start <= end ; leave iff start > end
                             want = ("<=" if start_left else ">=") if is_enter else (">" if start_left else "<")
                             guard_ok = (b["op"] == want)
@@ -1471,7 +1504,7 @@ def r_fmtprec(ctx, rep):
             ok = False
             for i in range(len(anc) - 1, -1, -1):
                 a = anc[i]
-                if a.get("k") == "Match" and a.get("src") in ("Normal", None):
+                if a.get("k") == "Match" and a.get("src") in ("Normal", None, "IfLet"):
                     sc = peel(a["scrut"])
                     if sc.get("k") == "MethodCall" and sc["name"] == "get" and _is_declared_table(sc["recv"]):
                         arm = next((x for x in a["arms"] if any(y is c for y in walk(x["body"]))), None)
